@@ -341,10 +341,8 @@ harnesses! {
     #[kani::unwind(4)]
     infix_table_vec_emit_b2_t = h_infix_table::<Emit, VS, 1>;
     infix_table_boxed_emit = h_infix_table::<Emit, VS, 2>;
-    #[kani::unwind(4)]
+    #[kani::unwind(3)]
     pratt_chain_emit_b2 = h_pratt_chain::<Emit, VS, 2>;
-    #[kani::unwind(4)]
+    #[kani::unwind(3)]
     pratt_chain_check_b2 = h_pratt_chain::<Check, VS, 2>;
-    #[kani::unwind(5)]
-    pratt_chain_emit_b3_t = h_pratt_chain::<Emit, VS, 3>;
 }
